@@ -4,7 +4,8 @@ closed forms (pypose.optim.kernel docstrings) and from the definitions of the us
 A kernel is described by plain JSON  {"k": name, "p": [params]}.  `Ref(spec)` gives
     rho(x), d1(x), d2(x)   mp.mpf -> mp.mpf
     T                      natural threshold of the input x=|R|^2 (delta^2, 1/delta^2, a, m, 1/c ...)
-    vscale                 absolute scale of the terms that cancel in the documented formula (value tolerance)
+    vscale                 absolute scale of the terms that cancel in the documented formula (value tolerance):
+                           delta^2 (Huber, PseudoHuber, Cauchy), 2 (SoftLOne), 2(a+|b|) (Tolerant), 0 (Arctan, Scale)
     psens(x)               relative sensitivity of rho' to an eps-rounding of the parameters / of (x-a)/b
 `family`: builtin | pos (rho''>0) | lin (rho''=0) | neg (rho''<0) | mixed (sign of rho'' depends on x).
 Nothing here calls pypose.
@@ -21,6 +22,25 @@ def family(spec):
     return "builtin" if spec["k"] in BUILTIN else USER[spec["k"]]
 
 
+def in_domain(spec):
+    """parameters inside the documented / stated domain (used to reject over-shrunk cases)"""
+    import math
+    k, p = spec["k"], [float(v) for v in spec["p"]]
+    if not all(math.isfinite(v) for v in p):
+        return False
+    if k == "Tolerant":
+        return p[0] > 0 and p[1] < 0 and p[0] / -p[1] <= 50 and 5e-4 <= p[0] <= 1e3
+    if k == "Scale":
+        return 0 < p[0] <= 1
+    if k == "sine":
+        return 0 < p[0] <= 0.8 and 1e-2 <= p[1] <= 1e2
+    if k == "cubic":
+        return p[1] > 0 and 0 < p[0] * p[1] ** 2 <= 4
+    if k == "chuber":
+        return p[1] > 0 and 0 < p[0] * p[1] <= 10
+    return all(5e-4 <= v <= 1e3 for v in p)
+
+
 class Ref:
     def __init__(self, spec):
         self.k = spec["k"]
@@ -33,9 +53,9 @@ class Ref:
                 self.T = p[0] ** 2
                 self.vscale = float(self.T) if k != "Arctan" else 0.0
             elif k == "SoftLOne":
-                self.T, self.vscale = 1 / p[0] ** 2, 1.0
+                self.T, self.vscale = 1 / p[0] ** 2, 2.0
             elif k == "Tolerant":
-                self.T, self.vscale = p[0], float(p[0] + abs(p[1]))
+                self.T, self.vscale = p[0], 2 * float(p[0] + abs(p[1]))
             elif k in ("Scale", "ident", "lin", "xlog1p"):
                 self.T = one
             elif k in ("quad", "exp", "log1p", "sine"):
